@@ -245,6 +245,38 @@ def _h_graph(mode):
     return _in_child(work)
 
 
+def _h_scm_status():
+    """SCM status of every known source workspace and attic directory through the public SCM API
+    (`getScm(spec).status(dir).expendable`): the model takes it as an input"""
+    def work():
+        import bob.state
+        from bob.state import BobState
+        from bob.scm import getScm
+        from bob.builder import checkoutsFromState
+        out = {"src": {}, "attic": {}}
+        try:
+            st = BobState()
+            for d in st.getDirectories():
+                raw = st.getDirectoryState(d, False)
+                if not isinstance(raw, dict) or not os.path.exists(d):
+                    continue
+                ok = True
+                for scmDir, (digest, spec) in checkoutsFromState(st.getDirectoryState(d, True)):
+                    ok = ok and (spec is not None) and bool(getScm(spec).status(d).expendable)
+                out["src"][d] = ok
+            for d in st.getAtticDirectories():
+                if not os.path.exists(d):
+                    continue
+                spec = st.getAtticDirectoryState(d)
+                if spec and "dir" in spec:
+                    del spec["dir"]
+                out["attic"][d] = bool(spec) and bool(getScm(spec).status(d).expendable)
+        finally:
+            bob.state.finalize()
+        return out
+    return _in_child(work)
+
+
 def _h_bob(op, args, bobroot):
     def work():
         import bob.state
@@ -312,6 +344,7 @@ def _helper_run(cmd, log):
     elif op in ("dev", "build", "clean"):
         if op == "clean":
             res["before"] = {"fs": _h_fs(), "state": _h_state(), "devdirs": _h_devdirs()}
+            res["scm"] = _h_scm_status()
         else:
             res["before"] = {"state": _h_state(), "fs": _h_fs()}
         r = _h_bob(op, cmd["args"], cmd["bobroot"])
@@ -1111,6 +1144,9 @@ def correspond(ctx):
 
 def correspond_real(ctx, events):
     """real command runs against the model: every `bob clean`, every PRUNE decision"""
+    for e in events:
+        if e["kind"] == "skip":
+            ctx.skip("clean correspondence: " + e["why"])
     cl = [e for e in events if e["kind"] == "clean"]
     outs = ctx.lean(DRIVER, [e["req"] for e in cl]) if cl else []
     for e, m in zip(cl, outs):
@@ -1167,11 +1203,12 @@ def clean_event(res, args, cmode, here):
     attic = [p for p, _ in bst["attic"]]
     cand = set(d[0] for d in bst["dirStates"]) | set(attic) | set(os.path.join(b[0], "workspace") for b in byname)
     existing = sorted(p for p in cand if p in bfs)
-    # SCM status as the harness knows it: a source workspace is expendable unless the user edited its git clone;
-    # an attic directory is expendable if it is an unmodified git clone (no recorded SCM = unknown = keep)
-    dirty = set(dirty_sources(bfs, bst["dirStates"]))
-    expendable = sorted(p for p in cand if p not in dirty)
-    attic_exp = sorted(p for p, scm in bst["attic"] if scm == "git" and not git_dirty(bfs, p))
+    # SCM status is an input of the model: taken from the SCM API (`status().expendable`) right before the run
+    scm = res.get("scm") or {}
+    if "src" not in scm:
+        return {"kind": "skip", "why": "SCM status unavailable: " + str(scm.get("child_error"))}
+    expendable = sorted(p for p, ok in scm["src"].items() if ok)
+    attic_exp = sorted(p for p, ok in scm["attic"].items() if ok)
     req = {"op": "clean", "mode": cmode, "src": "-s" in args, "force": "-f" in args, "dryRun": "--dry-run" in args,
            "verbose": "-v" in args, "root": g["root"], "fuel": len(pkgs) + 2, "pkgs": pkgs, "states": states,
            "byname": byname, "attic": attic, "existing": existing, "expendable": expendable, "atticExpendable": attic_exp}
